@@ -20,7 +20,7 @@ from tola.assembly.scaffold import Scaffold
 
 BIG = 10**12
 GAP_TYPES = ["scaffold", "contig", "centromere", "short_arm", "heterochromatin", "telomere", "repeat", "contamination"]
-FRAG_NAMES = ["c1", "a:b", "x-1:2-3", "p q r", "k%s%%"]
+FRAG_NAMES = ["c1", "a:b", "x-1:2-3", "p q r", "k%s%%", "k\x85m\x1cn"]
 COORDS = [(1, 1), (1, 5), (5, BIG)]
 TAGSETS = [(), ("Painted",), ("Painted", "X"), ("Painted", "W", "Haplotig", "Unloc", "Hap1", "Cut"), ("Hap1", "Painted", "Hap1")]
 
@@ -39,7 +39,7 @@ REDUCED = [
     ("G", 1, "centromere"),
     ("G", BIG, "short_arm"),
 ]
-NAMES = ["s1", "a:b", "x-1", "1:2-3", "s 1", "_", "scé", " s1", "s1 ", "u%%7", "50%", "c%d_r"]
+NAMES = ["s1", "a:b", "x-1", "1:2-3", "s 1", "_", "scé", " s1", "s1 ", "u%%7", "50%", "c%d_r", "a\x0bb", "c\u2028d"]
 HEADERS = [(), ("HiC MAP RESOLUTION: 2.500000 bp/texel",), ("text with  inner spaces", "second: line", "trailing blank ")]
 
 
@@ -101,7 +101,8 @@ def parse(text, kind):
 
 
 def data_lines(text):
-    return [ln for ln in text.splitlines() if ln.strip() and not ln.startswith("#")]
+    # (lines end at "\n" only: names may contain other characters that str.splitlines() would break at)
+    return [ln for ln in text.split("\n") if ln.strip(" \t\r") and not ln.startswith("#")]
 
 
 class C05(Check):
@@ -264,7 +265,7 @@ class C05(Check):
     def check_corruptions(self, spec, kind, ctx):
         asm = build(spec)
         text = fmt(asm, kind)
-        lines = text.splitlines()
+        lines = text.split("\n")[:-1] if text.endswith("\n") else text.split("\n")
         nrows = len(data_lines(text))
         for li, line in enumerate(lines):
             if not line.strip() or line.startswith("#"):
@@ -482,7 +483,7 @@ class C05(Check):
             _, fkind, spec, li, label, bad = case
             spec = [(n, [tuple(tuple(x) if isinstance(x, list) else x for x in r) for r in rows]) for n, rows in spec]
             text = fmt(build(spec), fkind)
-            lines = text.splitlines()
+            lines = text.split("\n")[:-1] if text.endswith("\n") else text.split("\n")
             t2 = "\n".join(lines[:li] + [bad] + lines[li + 1 :]) + "\n"
             self.one_corruption(t2, fkind, len(data_lines(text)), case, ctx)
         elif kind in ("cli", "cli-multi", "cli-multi-mixed"):
@@ -497,3 +498,4 @@ CHECK = C05()
 CHECK.rule += ' Rows with six tags; asm-format with two and three input files into one output (file and stdout), also with AGP and TPF inputs mixed in one invocation.'
 CHECK.rule += " Scaffold and contig names containing '%' (u%%7, 50%, c%d_r, k%s%%)."
 CHECK.rule += ' A tag tuple that repeats a tag (Hap1 Painted Hap1). CLI conversions also with file extensions .AGP/.TPF and .Agp/.Tpf.'
+CHECK.rule += ' Names containing characters that str.splitlines() treats as line ends although they are neither tab nor newline (VT, FS, NEL, U+2028).'
